@@ -3,7 +3,7 @@ import collections, json, re
 from tools.harness import common, mj
 
 ID = 'C14'
-TARGETS = ['MindsVerif.Props.C14']
+TARGETS = ['MindsVerif.Props.C14', 'MindsVerif.Props.C14Join']
 _T = ['C14_2', 'C14_2_rowdict_sound', 'C14_2_rowdict_complete', 'C14_2_iff', 'C14_2_not_in_fetch',
       'C14_2_table_conditions_never_arguments', 'C14_2_no_consumable_left', 'C14_2_conjunctwise', 'C14_2_rest_unchanged',
       'C14_2_outer', 'C14_2_outer_query',
@@ -13,7 +13,11 @@ _T = ['C14_2', 'C14_2_rowdict_sound', 'C14_2_rowdict_complete', 'C14_2_iff', 'C1
       'C14_limit_plain_row', 'C14_limit_needs_use_limit', 'C14_cat_project_via_metadata', 'C14_cat_model_any_case',
       'C14_cat_model_default_project', 'C14_cat_case_invariant', 'C14_1', 'C14_1_nodup', 'C14_1_plan', 'C14_1_apply_input', 'C14_1_predictor_first',
       'C14_partial', 'C14_5_swap', 'C14_rewrite_keeps_table', 'C14_obs_non_equality_mapped',
-      'C14_target_stays']
+      'C14_target_stays',
+      # Props/C14Join.lean: join-type spellings (kernel-decided on Gen/JoinSpellings.lean + theorems for all strings)
+      'C14_join_model_is_code', 'C14_join_class_respected', 'C14_obs_join_class_exact', 'C14_join_parser_keeps_class', 'C14_join_observed_covers',
+      'C14_join_all_parsable', 'C14_witness_outer_join', 'C14_join_first_word', 'C14_join_on_by_class',
+      'C14_join_on_only_restrictable', 'C14_join_nullable_right', 'C14_join_nullable_left', 'C14_join_on_live']
 THEOREMS = ['MindsVerif.Props.C14.' + t for t in _T]
 ASSUME = [
     'PlanJoinTablesQuery (resolve_table aliases, _check_identifiers, check_query_conditions / check_node_condition, '
@@ -30,6 +34,10 @@ ASSUME = [
     'specification readings: the predicted column (to_predict) is an output, not an argument; semi-join filters '
     '`col IN :Result` derived from ON equalities are C08\'s subject and exempt from the "top-level conjunct" clause; '
     '"no longer filters the outer result" = the residual WHERE accepts every row the original accepted',
+    'join types: the spellings are every connector of the live mindsdb grammar (tools/extract/x_c14join.py derives them '
+    'from the productions on every run); what a spelling means is the specification reading semClass / sem_class (side '
+    'words LEFT / RIGHT / FULL / CROSS wherever they stand; a side-less OUTER JOIN drops no unmatched row: treated as FULL; '
+    'CROSS JOIN ... ON as INNER, as in MySQL); Lean semClass and the oracle\'s sem_class are compared in the join_kind stream',
     'routing of operands to integrations / projects (which identifier is a model) is C10\'s subject; the harness decides '
     'it independently from the catalog (names compared case-insensitively, both forms of predictor_metadata, projects known '
     'only as the project of a model, predictor_namespace) and a disagreement shows as a divergence, as a wrong apply-step '
@@ -47,6 +55,8 @@ def cases_for(chk, n):
         yield 0, sql, 'seed'
     for ci, sql in mj.SEEDS_CAT:
         yield ci, sql, 'seed'
+    for sql in mj.spelling_cases():
+        yield 0, sql, 'spelling'
     for i in range(n):
         ci = rng.randrange(len(mj.CATALOGS))
         yield ci, mj.Gen(rng, ci).query(), 'gen'
@@ -107,9 +117,22 @@ def run(chk):
                 if nfail[f['cls']] <= 3:
                     chk.classify(f, kf_match)
                     chk.fail(f)
+    # join-type strings: the real planner's four push-down decisions + the specification class, per string
+    jk = []
+    try:
+        for jt in mj.jtype_strings(common.rng_for(chk.seed, 'C14/jk'), 40 if quick and not deep else 400):
+            jk.append((jt, mj.jk_line(jt), mj.jk_expected(jt)))
+            dist['jk:' + mj.sem_class(jt)] += 1
+    except Exception as e:
+        chk.oblige('corr:join_kind', 'correspondence', False, 'probing the planner failed: %s: %s' % (type(e).__name__, e))
+        jk = []
     # correspondence: whole plans, model vs implementation
     try:
-        outs = common.lean_run('ModelJoin', lines)
+        outs = common.lean_run('ModelJoin', lines + [l for _, l, _ in jk])
+        if jk:
+            jouts, outs = outs[len(lines):], outs[:len(lines)]
+            bad = [dict(join_type=jt, impl=exp, model=o) for (jt, _, exp), o in zip(jk, jouts) if exp != o]
+            chk.corr_result('join_kind', len(jk), len(bad), bad[0] if bad else None)
         diverged, first = 0, None
         for (ci, sql, out), o in zip(metas, outs):
             if 'exc:Internal' in out:
@@ -142,6 +165,10 @@ def run(chk):
     chk.samples.append(dict(theorem='C14_limit_plain_row: a fetch step of a produced plan carries LIMIT / OFFSET / ORDER BY only if the query has '
                                     'no HAVING, GROUP BY, DISTINCT and no aggregate node anywhere in the select list'))
     chk.samples.append(dict(theorem='C14_partial : C14_full (all clauses of the statement, for all inputs)'))
+    chk.samples.append(dict(theorem='C14_join_class_respected: for every (spelling, Join.join_type) of the live grammar except the '
+                                    'known finding, codeFlags join_type = what semClass join_type demands (decide +kernel on '
+                                    'Gen/JoinSpellings.lean); C14_join_model_is_code: codeFlags = the decisions observed on the live planner',
+                            spellings=[sp['sql'] for sp in mj.join_spellings()]))
     chk.samples.append(dict(theorem='C14_cat_model_any_case: (some p, n) in catalog.models, lower q = lower p, lower m = lower n, m not a version '
                                     '-> catalog.isModel [q, m] and catalog.routable [q, m] (also when p is known only through predictor_metadata)'))
     return chk.finish(assumptions=ASSUME)
